@@ -3,7 +3,7 @@
 From Coq Require Import Permutation String.
 From Statham.Model Require Import Str Orderer Tables.
 From Statham.Generated Require Import Gen_orderer_paths.
-From Statham.Proofs Require Import StrFacts OrdererLoop OrdererSound OrdererWalk OrdererDirect Agree_orderer.
+From Statham.Proofs Require Import StrFacts OrdererLoop OrdererSound OrdererWalk OrdererDirect OrdererReach Agree_orderer.
 
 (* The emission loop of orderer(): on every dependency map with unique keys that is
    closed (dependencies are keys and are transitive, which get_children's transitive
@@ -83,6 +83,16 @@ Theorem C11_orderer_total : forall paths G roots,
   wf_graphb paths G = true -> boundedb G roots = true -> orderer paths G roots <> OOutOfFuel.
 Proof. exact orderer_total_b. Qed.
 Print Assumptions C11_orderer_total.
+
+(* The enumeration is exact: whenever get_children(n) returns, what it yields is exactly the
+   set of nodes reachable from n in one or more child steps — nothing else, and nothing
+   missed, whatever the sharing and the cycles and however the shared `seen` set cuts the
+   walk short (invariant: a node newly added to `seen` has all its children in the final
+   `seen` and in the yield list). *)
+Theorem C11_walk_exact : forall paths G n ys,
+  get_children paths G n = Some ys -> forall x, In x ys <-> reach paths G n x.
+Proof. exact get_children_reach. Qed.
+Print Assumptions C11_walk_exact.
 
 (* What a returned order means for the module that is generated from it, with NO closure
    premise: a class body mentions its direct children only, and every object class that a
